@@ -323,7 +323,7 @@ func (r *TypeClassSummonContext) lookupTypeClassInstanceLocalDeclared(ctx Curren
 			// 그래서 이런 타입을 만난 경우에,   먼저 생성해 본다.
 			// 그런데,   A -> B -> A  순으로  순환 참조가 있다면,  생성을 해볼 수가 없다.
 			expr := r.summonVar(tci.WillGeneratedBy.Get())
-			if expr.IsDefined() && tci.RequiredInstance.Size() != expr.Get().paramInstance.Size() {
+			if expr.IsDefined() {
 
 				// paramInstance 에  실제 인스턴스의 아규먼트 목록이 있다.
 				// RequiredInstance 를  실제 아규먼트로 변경 해주어야 함.
